@@ -133,6 +133,7 @@ structure RecLayout where
   omitVersion : Bool := false
   omitKeywords : Bool := false
   omitSource : Bool := false
+  omitOrganism : Bool := false      -- an empty ORGANISM line left out under a SOURCE block that is written
   feats : List FeatLayout := []
   originTrail : Bool := false    -- `ORIGIN` followed by six blanks, as NCBI writes it
   blockLen : Nat := 9            -- letters per block minus one
@@ -332,9 +333,11 @@ def featuresHeader : Str := c!"FEATURES             Location/Qualifiers"
 def mblock (om : Bool) (kw t : Str) (bs : List Nat) : List Str :=
   if om = true ∧ t = [] then [] else block kw t bs
 
-/-- SOURCE with its mandatory sub-keyword ORGANISM; both left out together when both are empty -/
-def sourceBlock (om : Bool) (src org : Str) (bs bo : List Nat) : List Str :=
-  if om = true ∧ src = [] ∧ org = [] then [] else block c!"SOURCE" src bs ++ block c!"  ORGANISM" org bo
+/-- SOURCE with its sub-keyword ORGANISM; both left out together when both are empty (`om`), or — like every
+other block without text — the ORGANISM line alone when the organism is empty (`oo`) -/
+def sourceBlock (om oo : Bool) (src org : Str) (bs bo : List Nat) : List Str :=
+  if om = true ∧ src = [] ∧ org = [] then []
+  else block c!"SOURCE" src bs ++ (if oo = true ∧ org = [] then [] else block c!"  ORGANISM" org bo)
 
 /-- where slot `k` of the extra keyword blocks starts -/
 def off (cs : List Nat) : Nat → Nat
@@ -371,7 +374,7 @@ def layout (r : GbRec) (ℓ : RecLayout) : List Str :=
   ++ extraSlot r ℓ 3
   ++ mblock ℓ.omitKeywords c!"KEYWORDS" r.keywords ℓ.keywords
   ++ extraSlot r ℓ 4
-  ++ sourceBlock ℓ.omitSource r.source r.organism ℓ.source ℓ.organism
+  ++ sourceBlock ℓ.omitSource ℓ.omitOrganism r.source r.organism ℓ.source ℓ.organism
   ++ extraSlot r ℓ 5
   ++ refsLines 0 r.refs ℓ.refs
   ++ extraRest r ℓ
@@ -507,21 +510,56 @@ end
 
 def isLocText (s : Str) : Bool := s.all isLocChar && locRest (s.length + 1) s == some []
 
+/-- no run of digits longer than `n` (from a run of `k` digits already read) -/
+def digitRunsLe (n : Nat) : Nat → Str → Bool
+  | _, [] => true
+  | k, c :: cs => if isDigit c then decide (k + 1 ≤ n) && digitRunsLe n (k + 1) cs else digitRunsLe n 0 cs
+
+/-- the location texts of the domain: INSDC-shaped (`isLocText`) with every numeral of at most 18 digits, so
+below 10^18 < 2^63 — `strconv.Atoi` in `parseLocation` clamps a larger one to MaxInt64 (and poly drops the range
+error), coordinates that large are no positions of a sequence below 10^8 bases -/
+def isLocTextB (s : Str) : Bool := isLocText s && digitRunsLe 18 0 s
+
 /-- a feature, except that its qualifier keys need not be distinct -/
 def wfFeatureLoose (f : RFeature) : Bool :=
   f.key != [] && f.key.length ≤ 15 && f.key.all isFeatKeyChar
     && f.loc != [] && f.loc.all isLocChar
-    && f.quals.all wfQual && isLocText f.loc
+    && f.quals.all wfQual && isLocTextB f.loc
 
 /-- `poly.Feature.Attributes` is a `map[string]string`: of several qualifiers with the same key only
 the last survives (known finding C01-repeated-qualifier-key), so the theorems ask for distinct keys -/
 def wfFeature (f : RFeature) : Bool :=
   f.key != [] && f.key.length ≤ 15 && f.key.all isFeatKeyChar
     && f.loc != [] && f.loc.all isLocChar
-    && f.quals.all wfQual && distinct (f.quals.map (·.1)) && isLocText f.loc
+    && f.quals.all wfQual && distinct (f.quals.map (·.1)) && isLocTextB f.loc
 
 /-- kf C01-repeated-qualifier-key: some feature repeats a qualifier key -/
 def repeatedQualKey (r : GbRec) : Bool := r.features.any (fun f => !distinct (f.quals.map (·.1)))
+
+/-- kf C01-source-without-organism: the layout writes a SOURCE block and leaves its (empty) ORGANISM line out -/
+def orgOmitted (r : GbRec) (ℓ : RecLayout) : Bool :=
+  ℓ.omitOrganism && r.organism == [] && !(ℓ.omitSource && r.source == [])
+
+/-- the text of the keyword block that follows SOURCE in the layout: the first extra block of slot 5, else the
+first REFERENCE line (number, two blanks, range), else the first extra block after the references, else what
+stands behind `FEATURES` -/
+def afterSourceText (r : GbRec) (ℓ : RecLayout) : Str :=
+  match (r.extras.drop (off ℓ.extraCuts 5)).take (ℓ.extraCuts.getD 5 0) with
+  | e :: _ => e.2
+  | [] =>
+    match r.refs with
+    | rf :: _ => refHead 0 rf
+    | [] =>
+      match (r.extras.drop (off ℓ.extraCuts 6)).take (afterRefsCount r ℓ) with
+      | e :: _ => e.2
+      | [] => c!"Location/Qualifiers"
+
+/-- what known finding C01-source-without-organism predicts: everything as the record states it (of a repeated
+qualifier key the last value), except that under a SOURCE block without ORGANISM line the text of the NEXT
+keyword block is returned as the organism -/
+def toSequenceOrg (r : GbRec) (ℓ : RecLayout) : Genbank.Sequence :=
+  let s := toSequenceM r
+  if orgOmitted r ℓ then { s with md := { s.md with organism := afterSourceText r ℓ } } else s
 
 /-- the property's quantifier as a decidable predicate on abstract records -/
 def wf (r : GbRec) : Bool :=
